@@ -3,12 +3,25 @@ import AdfObdd.Stable
 import AdfObdd.EquivarMore
 import AdfObdd.StableExact
 import AdfObdd.SortProofs
+import AdfObdd.CliFaithful
+import AdfObdd.CliModes
+import AdfObdd.NatLexOrder
 /-! # C10 — answers do not depend on presentation (fact order, sorting, naming)
 
 A presentation change (reordering the facts, a sort, consistent renaming) is a bijection `p` of the
 statement numbers with inverse `q`; `Renamed p q D D'` says `D'` is `D` presented through `p`
 (statement `i` sits at position `p i` and reads its atoms through `p`). Whitespace changes do not
-reach this level (they are parser layout, C08). -/
+reach this level (they are parser layout, C08).
+
+Second review (C10 rows 1, 3), last section of this file: `SameLabelMaps` speaks about the
+REFERENCE enumerations (`groundedLoop`, `completeAll`, `stableAll`); the outputs of the other
+procedures behind `--stmca` and `--stmcb` (`countAll`), `--stmpre` (`Cli.stablePre`), `--stmng` and
+`--twoval` (`SM.ngSearch`) are composed with it there from the exactness theorems C03/C04/C05
+(`…_outputs_invariant`); `--stmrew` on both library arms under the hypothesis that the library
+object denotes the native object's functions, the parser-level composition kept as a statement. `--an`
+(`varsort_alphanum`): `alphanum_reports_le_order` says which order is reported — relative to the
+UNMODELLED comparison `natural_lexical_cmp` (trust assumption of `IsVarsortAlphanum`); what that
+comparison is on concrete labels is OPEN here (not a theorem of this development). -/
 namespace C10
 
 /-- the consequence operator commutes with every re-presentation -/
@@ -550,6 +563,56 @@ example : (List.range 6).map (reindex (namesOf exFs) (varsortLexi (PState.ofFact
 example : condOf [.stmt ['a'], .ac ['a'] .top, .ac ['a'] .bot] ['a'] ≠
     condOf [.stmt ['a'], .ac ['a'] .bot, .ac ['a'] .top] ['a'] := by decide
 
+/-! ### what order `--an` yields (review 2, C10 row 3)
+
+`IsVarsortAlphanum le` leaves `natural_lexical_cmp` abstract; its field `sorted` was never used. With the
+comparison MODELLED (`CliM.NatLex.le`, CliWorld.lean; total, transitive, antisymmetric on all labels:
+NatLexOrder.lean) the parser object after `varsort_alphanum` is determined: for pairwise different names
+there is exactly one name list that is a permutation of the old one and sorted w.r.t. `le`, the one
+insertion sort computes (`CliM.NatLex.anSort`, what `CliM.sortState … .an` and the driver use). Fidelity
+of `CliM.NatLex.le` to the crate is limited to labels within Latin-1 (see `C15`, section on `--an`). -/
+
+/-- the model's `--an` is an instance of `IsVarsortAlphanum` for the modelled comparison … -/
+theorem an_sort_is_varsort_alphanum (st : PState) :
+    IsVarsortAlphanum CliM.NatLex.le st (st.resort (CliM.NatLex.anSort st.namelist)) :=
+  ⟨(CliM.NatLex.anSort_sorted_all st.namelist).1, (CliM.NatLex.anSort_sorted_all st.namelist).2, rfl⟩
+
+/-- … and the ONLY one when the names are pairwise different: `sorted` + `perm` determine the name list
+(a sorted permutation w.r.t. a total, transitive, antisymmetric comparison is unique), hence the state -/
+theorem varsort_alphanum_unique (st st' : PState) (nd : st.namelist.Nodup)
+    (h : IsVarsortAlphanum CliM.NatLex.le st st') :
+    st' = st.resort (CliM.NatLex.anSort st.namelist) := by
+  have hs := an_sort_is_varsort_alphanum st
+  have key : ∀ (l1 l2 : List Label), l1.Perm l2 → l1.Nodup →
+      l1.Pairwise (fun a b => CliM.NatLex.le a b = true) → l2.Pairwise (fun a b => CliM.NatLex.le a b = true) →
+      l1 = l2 := by
+    intro l1
+    induction l1 with
+    | nil => intro l2 hp _ _ _; exact hp.nil_eq
+    | cons x xs ih =>
+      intro l2 hp nd1 s1 s2
+      cases l2 with
+      | nil => exact absurd hp.length_eq (by simp)
+      | cons y ys =>
+        have hx : x ∈ y :: ys := hp.mem_iff.mp (List.mem_cons_self ..)
+        have hy : y ∈ x :: xs := hp.mem_iff.mpr (List.mem_cons_self ..)
+        have exy : x = y := by
+          rcases List.mem_cons.mp hx with e | hx'
+          · exact e
+          · rcases List.mem_cons.mp hy with e | hy'
+            · exact e.symm
+            · exact CliM.NatLex.le_antisymm x y ((List.pairwise_cons.mp s1).1 y hy')
+                ((List.pairwise_cons.mp s2).1 x hx')
+        subst exy
+        have hp' : xs.Perm ys := (List.perm_cons x).mp hp
+        rw [ih ys hp' (List.nodup_cons.mp nd1).2 (List.pairwise_cons.mp s1).2 (List.pairwise_cons.mp s2).2]
+  have e : st'.namelist = CliM.NatLex.anSort st.namelist :=
+    key _ _ (h.perm.trans (CliM.NatLex.anSort_sorted_all st.namelist).1.symm)
+      (h.perm.nodup_iff.mpr nd) h.sorted (CliM.NatLex.anSort_sorted_all st.namelist).2
+  rw [h.state, e]
+
+#print axioms an_sort_is_varsort_alphanum
+#print axioms varsort_alphanum_unique
 #print axioms resorted_label_maps
 #print axioms sorted_twice_label_maps
 #print axioms texts_invariant
@@ -567,3 +630,272 @@ example : condOf [.stmt ['a'], .ac ['a'] .top, .ac ['a'] .bot] ['a'] ≠
 #print axioms exFs_lexi
 
 end C10
+
+/-! ## outputs of the other procedures (second review, C10 row 1) and the order `--an` reports (row 3)
+
+`SameLabelMaps` compares the reference enumerations. Every other procedure the CLI offers for
+stable / two-valued models has an exactness theorem with the SAME right-hand side as the reference
+(C03 `stable_exact`, `stablepre_exact`; C04 `count_search_exact`; C05 via `CliF.ng_facts`: every
+halted run), so its output, read as a set of label maps, is invariant too. `Built n s ac` collects
+the side conditions of those theorems; the parser-level theorems above are re-stated with it. -/
+namespace C10
+open ParserM FromParser SortModel
+
+/-- the side conditions of C01–C05 on a built framework -/
+structure Built (n : Nat) (s : Store) (ac : List Nat) : Prop where
+  wf : WF s
+  len : ac.length = n
+  valid : ∀ t ∈ ac, t < s.nodes.size
+
+/-- the right-hand side of C03 / C04 / C05 (stable mode) -/
+def IsStableModel (D : List BoolFn) (n : Nat) (v : I3) : Prop :=
+  v.length = n ∧ TotalI v ∧ Gam D v = v ∧
+    ∀ w : I3, IsLfp (redu D v) w → ∀ i : Nat, v[i]? = some (some true) → w[i]? = some (some true)
+
+/-- `out` (decoded vectors) is exactly the set of stable models of the built framework -/
+def StableOutput (n : Nat) (s : Store) (ac : List Nat) (out : List I3) : Prop :=
+  ∀ v : I3, v ∈ out ↔ IsStableModel (ac.map (eval s)) n v
+
+/-- `out` is exactly the set of two-valued models (C05, two-valued mode) -/
+def TwoValOutput (n : Nat) (s : Store) (ac : List Nat) (out : List I3) : Prop :=
+  ∀ v : I3, v ∈ out ↔ (v.length = n ∧ TotalI v ∧ Gam (ac.map (eval s)) v = v)
+
+/-- every exact stable output has the members of the reference enumeration -/
+theorem stableOutput_iff_reference {n : Nat} {s : Store} {ac : List Nat} (b : Built n s ac) {out : List I3}
+    (h : StableOutput n s ac out) (v : I3) : v ∈ out ↔ v ∈ stableVecs n s ac :=
+  (h v).trans ((C03.stable_exact s n ac b.wf b.len b.valid).2 v).symm
+
+/-- **any two exact stable outputs** of two frameworks with the same label maps are the same set of
+label maps -/
+theorem stable_outputs_invariant (xs ys : List Label) (s s' : Store) (ac ac' : List Nat)
+    (H : SameLabelMaps xs ys s ac s' ac') (b : Built xs.length s ac) (b' : Built ys.length s' ac')
+    (out out' : List I3) (h : StableOutput xs.length s ac out) (h' : StableOutput ys.length s' ac' out')
+    (m : Label → Option (Option Bool)) :
+    m ∈ out.map (labelled xs) ↔ m ∈ out'.map (labelled ys) := by
+  have e : ∀ m, m ∈ out.map (labelled xs) ↔ m ∈ (stableVecs xs.length s ac).map (labelled xs) := by
+    intro m; simp only [List.mem_map, stableOutput_iff_reference b h]
+  have e' : ∀ m, m ∈ out'.map (labelled ys) ↔ m ∈ (stableVecs ys.length s' ac').map (labelled ys) := by
+    intro m; simp only [List.mem_map, stableOutput_iff_reference b' h']
+  rw [e m, e' m]
+  exact H.2.2.1 m
+
+/-- **any two exact two-valued outputs** likewise -/
+theorem twoval_outputs_invariant (xs ys : List Label) (s s' : Store) (ac ac' : List Nat)
+    (H : SameLabelMaps xs ys s ac s' ac') (b : Built xs.length s ac) (b' : Built ys.length s' ac')
+    (out out' : List I3) (h : TwoValOutput xs.length s ac out) (h' : TwoValOutput ys.length s' ac' out')
+    (m : Label → Option (Option Bool)) :
+    m ∈ out.map (labelled xs) ↔ m ∈ out'.map (labelled ys) := by
+  have key : ∀ (zs : List Label) (t : Store) (bc : List Nat) (o : List I3), Built zs.length t bc →
+      TwoValOutput zs.length t bc o →
+      (m ∈ o.map (labelled zs) ↔ ∃ v ∈ completeVecs zs.length t bc, TotalI v ∧ labelled zs v = m) := by
+    intro zs t bc o bb ho
+    have ce := (CompleteExact.completeAll_exact t zs.length bc bb.wf bb.len bb.valid).2.1
+    simp only [List.mem_map]
+    constructor
+    · rintro ⟨v, hv, rfl⟩
+      have ⟨a, b, c⟩ := (ho v).mp hv
+      exact ⟨v, (ce v).mpr ⟨a, c⟩, b, rfl⟩
+    · rintro ⟨v, hv, ht, rfl⟩
+      have ⟨a, c⟩ := (ce v).mp hv
+      exact ⟨v, (ho v).mpr ⟨a, ht, c⟩, rfl⟩
+  rw [key xs s ac out b h, key ys s' ac' out' b' h']
+  exact H.2.2.2 m
+
+/-- `--stm`, `--stmpre`, `--stmca`, `--stmcb` produce exact stable outputs on every built framework;
+`--stmng` on every run that halted within its bound (and it halts from some bound on) -/
+theorem procedures_exact {n : Nat} {s : Store} {ac : List Nat} (b : Built n s ac) :
+    StableOutput n s ac (stableVecs n s ac) ∧
+    StableOutput n s ac ((Cli.stablePre s n ac).2.map (fun v => v.map storeIsConst)) ∧
+    (∀ useA, StableOutput n s ac ((countAll s n ac useA).2.map (fun v => v.map storeIsConst))) ∧
+    (∀ h : SM.Heu, (∃ F0, ∀ F, F0 ≤ F → (SM.ngSearch h F s n ac true).2.2.2 = true) ∧
+      ∀ F, (SM.ngSearch h F s n ac true).2.2.2 = true →
+        StableOutput n s ac ((SM.ngSearch h F s n ac true).2.1.map (fun v => v.map storeIsConst))) := by
+  refine ⟨(C03.stable_exact s n ac b.wf b.len b.valid).2, (C03.stablepre_exact s n ac b.wf b.len b.valid).2,
+    fun useA => (C04.count_search_exact s n ac useA b.wf b.len b.valid).2, ?_⟩
+  intro h
+  have ⟨a, c⟩ := CliF.ng_facts h s n ac true b.wf b.len b.valid (fun hc => by cases hc)
+  refine ⟨a, fun F hF v => ?_⟩
+  rw [(c F hF).2.2.2 v]
+  exact ⟨fun ⟨p, q, r, t⟩ => ⟨p, q, r, t rfl⟩, fun ⟨p, q, r, t⟩ => ⟨p, q, r, fun _ => t⟩⟩
+
+/-- `--twoval`: exact two-valued output on every halted run, provided every condition reads
+statements only (the side condition of C05's two-valued mode; true of every parsed framework whose
+atoms are declared) -/
+theorem twoval_procedure_exact {n : Nat} {s : Store} {ac : List Nat} (b : Built n s ac)
+    (hsup : ∀ t ∈ ac, ∀ σ τ : Asg, (∀ i, i < n → σ i = τ i) → eval s t σ = eval s t τ) (h : SM.Heu) :
+    (∃ F0, ∀ F, F0 ≤ F → (SM.ngSearch h F s n ac false).2.2.2 = true) ∧
+    ∀ F, (SM.ngSearch h F s n ac false).2.2.2 = true →
+      TwoValOutput n s ac ((SM.ngSearch h F s n ac false).2.1.map (fun v => v.map storeIsConst)) := by
+  have ⟨a, c⟩ := CliF.ng_facts h s n ac false b.wf b.len b.valid (fun _ => hsup)
+  refine ⟨a, fun F hF v => ?_⟩
+  rw [(c F hF).2.2.2 v]
+  exact ⟨fun ⟨p, q, r, _⟩ => ⟨p, q, r⟩, fun ⟨p, q, r⟩ => ⟨p, q, r, fun hc => by cases hc⟩⟩
+
+/-- **`--stmca` / `--stmcb`** (and across the two: `useA`, `useA'` arbitrary): the printed stable
+models, as label maps, do not depend on the presentation -/
+theorem stmc_outputs_invariant (xs ys : List Label) (s s' : Store) (ac ac' : List Nat)
+    (H : SameLabelMaps xs ys s ac s' ac') (b : Built xs.length s ac) (b' : Built ys.length s' ac')
+    (useA useA' : Bool) (m : Label → Option (Option Bool)) :
+    m ∈ ((countAll s xs.length ac useA).2.map (fun v => v.map storeIsConst)).map (labelled xs) ↔
+      m ∈ ((countAll s' ys.length ac' useA').2.map (fun v => v.map storeIsConst)).map (labelled ys) :=
+  stable_outputs_invariant xs ys s s' ac ac' H b b' _ _ ((procedures_exact b).2.2.1 useA)
+    ((procedures_exact b').2.2.1 useA') m
+
+/-- **`--stmpre`** -/
+theorem stmpre_outputs_invariant (xs ys : List Label) (s s' : Store) (ac ac' : List Nat)
+    (H : SameLabelMaps xs ys s ac s' ac') (b : Built xs.length s ac) (b' : Built ys.length s' ac')
+    (m : Label → Option (Option Bool)) :
+    m ∈ ((Cli.stablePre s xs.length ac).2.map (fun v => v.map storeIsConst)).map (labelled xs) ↔
+      m ∈ ((Cli.stablePre s' ys.length ac').2.map (fun v => v.map storeIsConst)).map (labelled ys) :=
+  stable_outputs_invariant xs ys s s' ac ac' H b b' _ _ (procedures_exact b).2.1 (procedures_exact b').2.1 m
+
+/-- **`--stmng`**, any two heuristics, any two bounds within which the runs halted (the CLI's bound
+is 1000000; `procedures_exact`: both halt from some bound on) -/
+theorem stmng_outputs_invariant (xs ys : List Label) (s s' : Store) (ac ac' : List Nat)
+    (H : SameLabelMaps xs ys s ac s' ac') (b : Built xs.length s ac) (b' : Built ys.length s' ac')
+    (h h' : SM.Heu) (F F' : Nat) (hF : (SM.ngSearch h F s xs.length ac true).2.2.2 = true)
+    (hF' : (SM.ngSearch h' F' s' ys.length ac' true).2.2.2 = true) (m : Label → Option (Option Bool)) :
+    m ∈ ((SM.ngSearch h F s xs.length ac true).2.1.map (fun v => v.map storeIsConst)).map (labelled xs) ↔
+      m ∈ ((SM.ngSearch h' F' s' ys.length ac' true).2.1.map (fun v => v.map storeIsConst)).map (labelled ys) :=
+  stable_outputs_invariant xs ys s s' ac ac' H b b' _ _ (((procedures_exact b).2.2.2 h).2 F hF)
+    (((procedures_exact b').2.2.2 h').2 F' hF') m
+
+/-- **`--twoval`**, likewise, under the side condition of the two-valued mode on both sides -/
+theorem twoval_search_outputs_invariant (xs ys : List Label) (s s' : Store) (ac ac' : List Nat)
+    (H : SameLabelMaps xs ys s ac s' ac') (b : Built xs.length s ac) (b' : Built ys.length s' ac')
+    (hsup : ∀ t ∈ ac, ∀ σ τ : Asg, (∀ i, i < xs.length → σ i = τ i) → eval s t σ = eval s t τ)
+    (hsup' : ∀ t ∈ ac', ∀ σ τ : Asg, (∀ i, i < ys.length → σ i = τ i) → eval s' t σ = eval s' t τ)
+    (h h' : SM.Heu) (F F' : Nat) (hF : (SM.ngSearch h F s xs.length ac false).2.2.2 = true)
+    (hF' : (SM.ngSearch h' F' s' ys.length ac' false).2.2.2 = true) (m : Label → Option (Option Bool)) :
+    m ∈ ((SM.ngSearch h F s xs.length ac false).2.1.map (fun v => v.map storeIsConst)).map (labelled xs) ↔
+      m ∈ ((SM.ngSearch h' F' s' ys.length ac' false).2.1.map (fun v => v.map storeIsConst)).map (labelled ys) :=
+  twoval_outputs_invariant xs ys s s' ac ac' H b b' _ _ ((twoval_procedure_exact b hsup h).2 F hF)
+    ((twoval_procedure_exact b' hsup' h').2 F' hF') m
+
+/-- the two stable procedures also agree WITH EACH OTHER on one framework (`xs = ys`, identity
+presentation is not needed: both are exact) — e.g. `--stmca` against `--stmng` -/
+theorem procedures_agree {n : Nat} {s : Store} {ac : List Nat} (b : Built n s ac) (out out' : List I3)
+    (h : StableOutput n s ac out) (h' : StableOutput n s ac out') (v : I3) : v ∈ out ↔ v ∈ out' :=
+  (h v).trans (h' v).symm
+
+/-- **`--stmrew` / `--stmrew2`, library arm** (`Bio.bioStableRep` on the external library object, C03
+`biodivine_rewriting_exact`): for every lawful library, if on each side the library object `acB`
+denotes position by position the functions of the native object (`hsame`, what `bioBuild` /
+`from_parser` establish: `CliM.bioBuild_facts`), the printed stable models are the same label maps.
+ASSUMPTION about the external crate as in C03: `W : Bio.Lawful L n` -/
+theorem stmrew_library_outputs_invariant {T : Type} (L : Bio.Lib T) (xs ys : List Label)
+    (W : Bio.Lawful L xs.length) (W' : Bio.Lawful L ys.length) (s s' : Store) (ac ac' : List Nat)
+    (H : SameLabelMaps xs ys s ac s' ac') (b : Built xs.length s ac) (b' : Built ys.length s' ac')
+    (rw rw' : Option T) (acB acB' : List T) (hv : ∀ a ∈ acB, W.Valid a) (hv' : ∀ a ∈ acB', W'.Valid a)
+    (hl : acB.length = xs.length) (hl' : acB'.length = ys.length)
+    (hsame : acB.map W.den = ac.map (eval s)) (hsame' : acB'.map W'.den = ac'.map (eval s'))
+    (hg : Bio.GoodRewrite W acB rw) (hg' : Bio.GoodRewrite W' acB' rw') (m : Label → Option (Option Bool)) :
+    m ∈ ((Bio.bioStableRep L rw acB).map (fun v => v.map storeIsConst)).map (labelled xs) ↔
+      m ∈ ((Bio.bioStableRep L rw' acB').map (fun v => v.map storeIsConst)).map (labelled ys) := by
+  apply stable_outputs_invariant xs ys s s' ac ac' H b b'
+  · intro v
+    rw [(C03.biodivine_rewriting_exact L xs.length W rw acB hv hl hg).2.1 v, hsame]; rfl
+  · intro v
+    rw [(C03.biodivine_rewriting_exact L ys.length W' rw' acB' hv' hl' hg').2.1 v, hsame']; rfl
+
+/-- **`--stmrew` / `--stmrew2`, hybrid arm** (`Bio.nativeStableRep`: candidates from the library
+object, test on the own store; C03 `native_rewriting_exact`), same hypotheses -/
+theorem stmrew_hybrid_outputs_invariant {T : Type} (L : Bio.Lib T) (xs ys : List Label)
+    (W : Bio.Lawful L xs.length) (W' : Bio.Lawful L ys.length) (s s' : Store) (ac ac' : List Nat)
+    (H : SameLabelMaps xs ys s ac s' ac') (b : Built xs.length s ac) (b' : Built ys.length s' ac')
+    (rw rw' : Option T) (acB acB' : List T) (hv : ∀ a ∈ acB, W.Valid a) (hv' : ∀ a ∈ acB', W'.Valid a)
+    (hl : acB.length = xs.length) (hl' : acB'.length = ys.length)
+    (hsame : acB.map W.den = ac.map (eval s)) (hsame' : acB'.map W'.den = ac'.map (eval s'))
+    (hg : Bio.GoodRewrite W acB rw) (hg' : Bio.GoodRewrite W' acB' rw') (m : Label → Option (Option Bool)) :
+    m ∈ ((Bio.nativeStableRep s xs.length ac (Bio.stableModelCandidates L rw acB)).2.map
+          (fun v => v.map storeIsConst)).map (labelled xs) ↔
+      m ∈ ((Bio.nativeStableRep s' ys.length ac' (Bio.stableModelCandidates L rw' acB')).2.map
+          (fun v => v.map storeIsConst)).map (labelled ys) := by
+  apply stable_outputs_invariant xs ys s s' ac ac' H b b'
+  · intro v
+    rw [(C03.native_rewriting_exact L xs.length W s ac b.wf b.len b.valid rw acB hv hl hsame hg).2.2.1 v]; rfl
+  · intro v
+    rw [(C03.native_rewriting_exact L ys.length W' s' ac' b'.wf b'.len b'.valid rw' acB' hv' hl' hsame' hg').2.2.1 v]
+    rfl
+
+/-- NOT proved (kept as a statement): the same from the parser object alone, i.e. with the library
+objects of BOTH presentations produced by `CliM.bioBuild` — missing is the derivation of `hsame`,
+`hv`, `hg` for the re-sorted parser object from `CliM.bioBuild_facts` in one composed theorem -/
+def stmrew_parser_level_statement : Prop :=
+  ∀ {T : Type} (L : Bio.Lib T), (∀ n, Bio.Lawful L n) →
+    ∀ (fs : List Fact), WellFormedAdf fs → ∀ (ns' : List Label), ns'.Perm (namesOf fs) →
+      (namesOf fs).length ≤ VBOT → ∀ (rew : Bool) (b b' : List T × Option T),
+        CliM.bioBuild L (PState.ofFacts fs) rew = some b →
+        CliM.bioBuild L ((PState.ofFacts fs).resort ns') rew = some b' →
+        ∀ m, m ∈ ((Bio.bioStableRep L b.2 b.1).map (fun v => v.map storeIsConst)).map (labelled (namesOf fs)) ↔
+             m ∈ ((Bio.bioStableRep L b'.2 b'.1).map (fun v => v.map storeIsConst)).map (labelled ns')
+
+/-- the parser-level source of all hypotheses at once: for a well-formed ADF and any parser object
+presenting a permutation of its names (every sort, `--lx`, `--an`, both), both objects are built,
+have the same label maps, and satisfy `Built` — so every `…_outputs_invariant` above applies -/
+theorem presented_built (fs : List Fact) (hwf : WellFormedAdf fs) (st : PState) (ns' : List Label)
+    (hp : ns'.Perm (namesOf fs)) (hP : Presents st ns' (acsOf fs)) (hn : (namesOf fs).length ≤ VBOT) :
+    ∃ s ac s' ac', fromParser (PState.ofFacts fs) = some (s, ac) ∧ fromParser st = some (s', ac') ∧
+      SameLabelMaps (namesOf fs) ns' s ac s' ac' ∧
+      Built (namesOf fs).length s ac ∧ Built ns'.length s' ac' := by
+  obtain ⟨s, ac, s', ac', a, b, _, d⟩ := presented_label_maps fs hwf st ns' hp hP hn
+  obtain ⟨s'', ac'', h'', w', l', v', _, _⟩ := fromParser_presented fs hwf st ns' hp hP hn
+  rw [b] at h''; cases h''
+  obtain ⟨w, l, v, _⟩ := fromParser_correct fs s ac a hn
+  exact ⟨s, ac, s', ac', a, b, d, ⟨w, l, v⟩, ⟨w', by rw [hp.length_eq]; exact l', v'⟩⟩
+
+/-- **what order `--an` reports** (uses `IsVarsortAlphanum.sorted`): after `varsort_alphanum` the
+name list is a duplicate-free permutation of the declared names, pairwise ordered by the comparison
+`le` the crate implements (NOT modelled — the statement is relative to it), and entry `k` of every
+printed vector is the value of the label at position `k` of that list. So: statements are reported
+in `le`-ascending label order; which order that is on concrete labels ("natural": digit runs by
+value) rests on the crate `lexical-sort` and is open in this development -/
+theorem alphanum_reports_le_order (le : Label → Label → Bool) (fs : List Fact) (st' : PState)
+    (hs : IsVarsortAlphanum le (PState.ofFacts fs) st') :
+    st'.namelist.Perm (namesOf fs) ∧ st'.namelist.Nodup ∧
+    st'.namelist.Pairwise (fun a b => le a b = true) ∧
+    (∀ i j (hi : i < j) (hj : j < st'.namelist.length), le (st'.namelist[i]'(by omega)) st'.namelist[j] = true) ∧
+    ∀ k (hk : k < st'.namelist.length) (v : I3), labelled st'.namelist v st'.namelist[k] = v[k]? := by
+  have hp : st'.namelist.Perm (namesOf fs) := by
+    have := hs.perm
+    rwa [(ofFacts_spec fs).1] at this
+  have nd : st'.namelist.Nodup := hp.nodup_iff.mpr (namesOf_nodup fs)
+  refine ⟨hp, nd, hs.sorted, ?_, ?_⟩
+  · intro i j hi hj
+    exact List.pairwise_iff_getElem.mp hs.sorted i j (by omega) hj hi
+  · intro k hk v
+    unfold labelled
+    rw [indexOf_of_get _ nd _ k (by simp [hk])]
+    rfl
+
+/-- non-vacuity of `alphanum_reports_le_order`: for the six labels of `exFs` the natural order
+`exNatural` (9 < 10 < a9 < a10 < b < B) with ANY comparison under which that list is pairwise
+ordered — here the relation "stands before in `exNatural`" — is an `IsVarsortAlphanum` result -/
+example : IsVarsortAlphanum (fun a b => decide ((indexOf exNatural a).getD 9 ≤ (indexOf exNatural b).getD 9))
+    (PState.ofFacts exFs) ((PState.ofFacts exFs).resort exNatural) :=
+  ⟨by show exNatural.Perm (PState.ofFacts exFs).namelist; rw [(ofFacts_spec exFs).1]; exact exNatural_perm,
+   by show exNatural.Pairwise _; decide, rfl⟩
+
+/-- non-vacuity of the composed corollaries: `exFs` re-sorted to the natural order — both built,
+same label maps, `Built` on both sides (6 statements, byte order ≠ natural order) -/
+example : ∃ s ac s' ac', fromParser (PState.ofFacts exFs) = some (s, ac) ∧
+    fromParser ((PState.ofFacts exFs).resort exNatural) = some (s', ac') ∧
+    SameLabelMaps (namesOf exFs) exNatural s ac s' ac' ∧
+    Built (namesOf exFs).length s ac ∧ Built exNatural.length s' ac' :=
+  presented_built exFs exFs_wf _ exNatural exNatural_perm
+    (presents_resort (presents_ofFacts exFs) exNatural exNatural_perm) (by decide)
+
+end C10
+
+#print axioms C10.stable_outputs_invariant
+#print axioms C10.twoval_outputs_invariant
+#print axioms C10.procedures_exact
+#print axioms C10.twoval_procedure_exact
+#print axioms C10.stmc_outputs_invariant
+#print axioms C10.stmpre_outputs_invariant
+#print axioms C10.stmng_outputs_invariant
+#print axioms C10.twoval_search_outputs_invariant
+#print axioms C10.stmrew_library_outputs_invariant
+#print axioms C10.stmrew_hybrid_outputs_invariant
+#print axioms C10.presented_built
+#print axioms C10.alphanum_reports_le_order
